@@ -242,6 +242,17 @@ def build_and_audit(prop, ctx, report):
         if p.returncode != 0:
             b['audit_log'] = aout[-2000:]
             broken.append('audit file does not check')
+    # thorough tier: re-check the compiled property module (and everything it imports from this library) with
+    # the toolchain's independent checker
+    if ctx.tier == 'thorough' and b.get('props_rc') == 0:
+        try:
+            p = subprocess.run(['lake', 'env', 'leanchecker', props_mod], cwd=LEAN, stdout=subprocess.PIPE, stderr=subprocess.STDOUT, timeout=1200)
+            b['leanchecker_rc'] = p.returncode
+            if p.returncode != 0:
+                b['leanchecker_log'] = p.stdout.decode(errors='replace')[-1500:]
+                broken.append('leanchecker rejects %s' % props_mod)
+        except subprocess.TimeoutExpired:
+            b['leanchecker_rc'] = 'timeout'
     # forbidden tokens anywhere in the library (comments stripped)
     hits = []
     for root, _, files in os.walk(os.path.join(LEAN, 'PyramidModel')):
